@@ -141,6 +141,16 @@ def c14_closure(ctx, prog):
     ctx.floor("C14.L2", 40)
 
 
+def c14_bounds(ctx, prog):
+    """L5: no exported function indexes a local array outside its declared bounds, for any argument values"""
+    n = 0
+    for f in API + ("reproc_poll",):
+        res, F, I = run_poll(ctx, prog) if f == "reproc_poll" else run(ctx, prog, f)
+        oob = [e for e in res.events if e[0] == "oob"]
+        ctx.ob("C14.L5", f, "no local array is indexed outside its bounds, whatever the (valid-pointer) arguments are", not oob,
+               {"accesses": sorted({(site_of(e[1], e[2]), show(e[3][0])[:40], e[3][1]) for e in oob})[:4]}, nontrivial=True)
+
+
 def c14_streams(ctx, prog):
     EPIPE = prog.const("REPROC_EPIPE")
     inv = fs(prog.const("PIPE_INVALID"))
